@@ -7,7 +7,8 @@
    non-blank line; `item_ok g` says that nothing in item `g` is rejected; `file_clean ls` that
    every item of the file and of the files it includes is valid.  `status_of_count` is
    regenerated from src/main.cc on every run (Gen/StatusOfCount.v). *)
-From LedgerV Require Import Base.Prelude Gen.StatusOfCount Gen.CheckingStyle Gen.NameChecks Model.Errors Proofs.ErrorsProofs.
+From LedgerV Require Import Base.Prelude Gen.StatusOfCount Gen.CheckingStyle Gen.NameChecks Gen.LineReader Model.Errors Model.ErrorsReader
+     Proofs.ErrorsProofs Proofs.ErrorsReaderProofs.
 Local Open Scope Z_scope.
 
 (* ---- one located message per invalid item ------------------------------------------------- *)
@@ -255,3 +256,76 @@ Proof. vm_compute. reflexivity. Qed.
 
 Example status_256 : status_of_count 256 mod 256 = 255.
 Proof. vm_compute. reflexivity. Qed.
+
+(* ---- lines that are no item: comment blocks, byte-order mark, over-long lines ---------------
+   Model/ErrorsReader.v reads a file whose elements are the lines above, `comment` / `test` blocks
+   with the physical lines they swallow (empty / blanks only / text), over-long lines, and
+   includes of such files, possibly starting with a byte-order mark.  `src_rd` are the facts
+   regenerated from read_line / comment_directive / parse (Gen/LineReader.v). *)
+
+(* a comment block moves the line counter by the number of its physical lines - its head, every
+   line of its body whether empty, blank or text, and its end marker - and changes nothing else:
+   whatever follows is read as if the block were that many lines of nothing.  Needs
+   comment_body_reader = BRReadLine and read_line_count_rule = CountGcount. *)
+Theorem comment_block_counts_every_line : forall file chain body closed rest s,
+  s_mode s = MTop ->
+  xrun src_rd file chain false (XComment body closed :: rest) s =
+  xrun src_rd file chain false rest
+       (mk_st false MTop (s_line s + 1 + Z.of_nat (consumed body closed)) (s_errs s) (s_msgs s)).
+Proof. exact (ErrorsReaderProofs.comment_block_counts_every_line src_rd). Qed.
+Print Assumptions comment_block_counts_every_line.
+
+(* hence every theorem above speaks about files with comment blocks too: such a file writes
+   exactly what its expansion (block = a valid one-line item followed by empty lines, same number
+   of physical lines) writes, one located message per invalid item, each at its own line *)
+Theorem reader_is_item_reader : forall file chain bom xs,
+  all_long_fine src_rd xs = true ->
+  xparse_file src_rd file chain bom xs = parse_file file chain (expand src_rd bom xs).
+Proof. exact (xparse_file_expand src_rd). Qed.
+Print Assumptions reader_is_item_reader.
+
+Theorem one_message_per_invalid_item_with_comment_blocks : forall file chain bom xs,
+  all_long_fine src_rd xs = true ->
+  s_msgs (xparse_file src_rd file chain bom xs) = expected file chain 1 (items (expand src_rd bom xs)).
+Proof. intros file chain bom xs H. rewrite (xparse_file_expand src_rd file chain bom xs H). apply parse_file_msgs. Qed.
+Print Assumptions one_message_per_invalid_item_with_comment_blocks.
+
+Theorem session_with_comment_blocks : forall files,
+  files_long_fine src_rd files = true ->
+  run_xsession files = session (expand_files src_rd files).
+Proof. exact (xsession_expand src_rd). Qed.
+Print Assumptions session_with_comment_blocks.
+
+(* byte-order mark: transparent when the test is made against the line number the first line has
+   (1); with the test the source has now (0, after the increment: never true) a valid transaction
+   on the first line is dropped and its posting reported - finding F1201 *)
+Theorem bom_transparent_when_stripped : bom_test_linenum = 1 -> forall file chain xs,
+  xparse_file src_rd file chain true xs = xparse_file src_rd file chain false xs.
+Proof. intros H file chain xs. apply bom_stripped_transparent. exact H. Qed.
+Print Assumptions bom_transparent_when_stripped.
+
+Theorem bom_valid_first_line_refuted : bom_test_linenum <> 1 ->
+  exists xs, s_msgs (xparse_file src_rd 1 [] false xs) = [] /\
+             s_msgs (xparse_file src_rd 1 [] true xs) = [mk_msg [] 1 2 k_stray None].
+Proof. intros H. exists bom_witness. exact (proj2 (bom_not_stripped_refuted src_rd H)). Qed.
+Print Assumptions bom_valid_first_line_refuted.
+
+(* over-long line: as the source stands the message names the line before it and the file's
+   loop ends, so the unbalanced transaction after it is never reported - finding F1202; with the
+   throw after the increment and the rest of the line skipped both are located *)
+Theorem long_line_hides_later_items_refuted : long_line_counted = false -> long_line_recovers = false ->
+  s_msgs (xparse_file src_rd 1 [] false long_witness) = [mk_msg [] 1 1 k_long None].
+Proof. exact (long_line_refuted src_rd). Qed.
+Print Assumptions long_line_hides_later_items_refuted.
+
+Theorem long_line_located_when_counted : long_line_counted = true -> long_line_recovers = true ->
+  s_msgs (xparse_file src_rd 1 [] false long_witness) =
+  [mk_msg [] 1 2 k_long None; mk_msg [] 1 5 1 (Some (3, 5))].
+Proof. exact (long_line_fixed src_rd). Qed.
+Print Assumptions long_line_located_when_counted.
+
+Example sample_comment_block :
+  s_msgs (xparse_file src_rd 1 [] false
+            [XComment [CText; CEmpty; CEmpty; CWs] true; XPlain LEmpty;
+             XPlain (LItem None true (Some 1)); XPlain (LSub None)]) = [mk_msg [] 1 9 1 (Some (8, 9))].
+Proof. reflexivity. Qed.
